@@ -26,6 +26,7 @@ SHARDS = {"quick": 1, "thorough": 16}
 
 VERSIONS = ["1", "1.0", "1.9", "1.10", "1.10.0", "2", "0.9.9", "10.0", "1.2.3.4"]
 NAMES = ["alpha", "beta", "gamma", "delta"]
+CASE_NAMES = ["alpha", "Alpha", "ALPHA", "stra\u00dfe", "strasse", "STRASSE", "made-as-alpha"]   # distinct names: nothing folds them together
 
 
 def mk(seq, share=False):
@@ -43,6 +44,10 @@ def mk(seq, share=False):
         else:
             d = ht.HTMLDependency(n, v, script={"src": "f%d.js" % i}) if i % 3 else (ht.HTMLDependency(n, v, all_files=bool(i % 2)) if i % 2 else ht.HTMLDependency(n, v))
             
+        if i % 7 == 6:
+            # the name was assigned after construction (a public attribute): the current name counts
+            d = ht.HTMLDependency("made-as-" + n, v, script={"src": "f%d.js" % i})
+            d.name = n
         first.setdefault((n, v), d)
         out.append(d)
     return out
@@ -118,6 +123,13 @@ def place(shape, deps):
             top.append(ht.div(next(it)))
             left[0] -= 1
         return ht.TagList(*top) if rng.random() < 0.5 else ht.div(*top)
+    if shape == "tag_subclasses":
+        # nodes that are instances of user subclasses of Tag, below ordinary tags and below each other
+        kids = []
+        for i, dep in enumerate(d):
+            kids.append(gen.SubTag("x-card", dep) if i % 3 == 0 else ht.div(gen.SubTag("x-card", ht.span(dep), "t")) if i % 3 == 1
+                        else gen.SubTag("x-outer", gen.SubTag("x-inner", dep)))
+        return ht.div(*kids) if len(d) % 2 else ht.TagList(ht.p("lead"), *kids)
     if shape == "appended":
         t = ht.div()
         for dep in d:
@@ -129,7 +141,7 @@ def place(shape, deps):
     raise ValueError(shape)
 
 
-SHAPES = ["flat_list", "deep_chain", "scattered", "nested_containers", "tag_root", "appended", "random_tree", "assigned"]
+SHAPES = ["flat_list", "deep_chain", "scattered", "nested_containers", "tag_root", "appended", "random_tree", "assigned", "tag_subclasses"]
 
 
 def same_ids(a, b):
@@ -299,7 +311,13 @@ def validation_matrix(ctx):
             if d is None:
                 ctx.violation("valid-definition-rejected", "%s with optional keys %r rejected: %r" % (field, sorted(opt), e), {"field": field})
         # non-dict items
-        for val in ("a.js", ["a.js"], [_c.deepcopy(good), "x"], [["src", "a"]], 7, [None]):
+        import collections as _co
+        import types as _ty
+
+        for val in ("a.js", ["a.js"], [_c.deepcopy(good), "x"], [["src", "a"]], 7, [None],
+                    # things that could be turned into a dict, but are not one
+                    [list(good.items())], [tuple(good.items())], [_co.UserDict(good)], [_ty.MappingProxyType(dict(good))],
+                    _co.UserDict(good), _ty.MappingProxyType(dict(good)), [_c.deepcopy(good), list(good.items())], [good.items()]):
             d, e = accepts(**{field: val})
             ctx.count("oracle.validation")
             ctx.case(("nondict", field, repr(val)), nontrivial=True)
@@ -310,7 +328,7 @@ def validation_matrix(ctx):
 
 def rand_seq(rng, n):
     k = rng.randint(1, 4)
-    names = NAMES[:k]
+    names = NAMES[:k] if rng.random() < 0.85 else rng.sample(CASE_NAMES, k)
     return [(rng.choice(names), rng.choice(VERSIONS)) for _ in range(n)]
 
 
@@ -371,7 +389,7 @@ def _run(ctx):
             idx += 1
             if not ctx.mine(idx):
                 continue
-            check_seq(ctx, list(perm), shapes=["flat_list", "scattered"] if not ctx.thorough else SHAPES)
+            check_seq(ctx, list(perm), shapes=["flat_list", "scattered", "tag_subclasses"] if not ctx.thorough else SHAPES)
             ctx.case(perm, nontrivial=nontrivial(perm))
             ctx.count("permutations")
     ctx.exhaustive["all_orders_of_listed_multisets"] = True
